@@ -96,7 +96,7 @@ type Case struct {
 	// service it was made on.
 	Second bool  `json:"second,omitempty"`
 	Local2 []int `json:"local2,omitempty"`
-	Ops             []Op        `json:"ops"`
+	Ops    []Op  `json:"ops"`
 }
 
 // ---------------------------------------------------------------------------
